@@ -53,8 +53,8 @@ def oraclePrims (tbl : Table) : Prims where
     let a ← ask tbl ("ch:" ++ toString n)
     ofOpt a.toNat? .cryptoInternal
 
-def env : Env := { ops := jwkOperationRegistry, algKeys := keySetAlgorithmKeys }
-def keyEnv : KeyEnv := { valueRegs := valueRegistries, thumbDigests := thumbDigests }
+def env : Env := Generated.env
+def keyEnv : KeyEnv := Generated.keyEnv
 
 /-- `kty;isPrivate;crv;bits;rawhex;handle;dictJVal` -/
 def readKey (s : String) : Option Key :=
